@@ -627,6 +627,12 @@ func validate(caller string, start, limit uint64, blocks []eth.Block) error {
 			const tag = "%s: rpc response contains invalid data. requested: %d got: %d"
 			return fmt.Errorf(tag, caller, start+uint64(i), got)
 		}
+		// a null or missing result decodes to a zero block; its number
+		// (0) passes the checks above when the range starts at block 0
+		if len(blocks[i].Header.Hash) != 32 {
+			const tag = "%s: rpc response contains invalid data. block: %d missing block hash"
+			return fmt.Errorf(tag, caller, start+uint64(i))
+		}
 	}
 	for i := 1; i < len(blocks); i++ {
 		prev, curr := blocks[i-1], blocks[i]
